@@ -41,23 +41,38 @@ def main():
                              + ("; lake env leanchecker IpldModel.Props.%s" % prop if tier == "thorough" else ""),
               "generated": []}
     module = f"IpldModel.Props.{prop}"
-    props_file = os.path.join(LEAN, "IpldModel", "Props", prop + ".lean")
+    # a property's theorems live in Props/<Cxx>.lean plus optional companion files Props/<Cxx><suffix>.lean
+    pdir = os.path.join(LEAN, "IpldModel", "Props")
+    props_files = sorted(f for f in os.listdir(pdir) if re.fullmatch(re.escape(prop) + r"[A-Za-z]*\.lean", f))
+    modules = ["IpldModel.Props." + f[:-5] for f in props_files]
     log = ""
     try:
         # 1. regenerate facts
         rc, o = run([os.path.join(V, "build", "translate"), REPO, os.path.join(LEAN, "IpldModel", "Generated")])
         log += o
-        translate_ok = rc == 0
-        # theorems of this property
-        src = strip_comments(open(props_file).read())
-        ns = re.search(r"^namespace\s+(\S+)", src, flags=re.M).group(1)
-        thms = [ns + "." + t for t in re.findall(r"^theorem\s+(\S+)", src, flags=re.M)]
+        # the translator is fail-closed per generated module (a module it can no longer translate is replaced by
+        # one that does not build), so a failure matters to this property exactly when its proofs import that module;
+        # a translator that crashed outright (no per-module report) fails everything.
+        translate_ok = rc in (0, 1)  # 1: some module failed closed; anything else: the translator itself broke
+        thms = []
+        for f in props_files:
+            src = strip_comments(open(os.path.join(pdir, f)).read())
+            # theorems are qualified by the namespace open at their position
+            ns = ""
+            for line in src.splitlines():
+                m = re.match(r"^namespace\s+(\S+)", line)
+                if m:
+                    ns = m.group(1)
+                m = re.match(r"^theorem\s+(\S+)", line)
+                if m:
+                    thms.append((ns + "." if ns else "") + m.group(1))
         status["obligations"] = len(thms)
         mods = {}
-        imports_closure(module, mods)
+        for m_ in modules:
+            imports_closure(m_, mods)
         status["generated"] = sorted(m for m in mods if ".Generated." in m)
         # 2. build
-        rc, o = run(["lake", "build", module, "driver"], cwd=LEAN)
+        rc, o = run(["lake", "build"] + modules + ["driver"], cwd=LEAN)
         log += o
         if rc != 0:
             status["failed"] = re.findall(r"^- (\S+)", o, flags=re.M) or [module]
@@ -79,7 +94,8 @@ def main():
         # 4. axiom audit
         audit = os.path.join(out_dir, "Audit.lean")
         with open(audit, "w") as f:
-            f.write(f"import {module}\n")
+            for m_ in modules:
+                f.write(f"import {m_}\n")
             for t in thms:
                 f.write(f"#print axioms {t}\n")
         rc, o = run(["lake", "env", "lean", audit], cwd=LEAN)
@@ -105,7 +121,7 @@ def main():
                 status["failed"].append(t + " uses " + ",".join(sorted(set(ax) - ALLOWED)))
         # 5. thorough: independent re-check of the compiled proofs
         if tier == "thorough" and not status["failed"]:
-            rc, o = run(["lake", "env", "leanchecker", module], cwd=LEAN)
+            rc, o = run(["lake", "env", "leanchecker"] + modules, cwd=LEAN)
             log += o
             if rc != 0:
                 status["failed"].append("leanchecker")
